@@ -403,15 +403,21 @@ def p7_exact_comparisons(run: Run, w: World) -> None:
         raise AnalysisError("C02/P7: quantities._eval_is_ge not found")
     f = Fn(w, QMOD, "_eval_is_ge", inline=True)
     # quantities of inequivalent dimensions must not be ordered at all (otherwise SymPy folds Max(3 m, 2 s) to 3 m before the
-    # constructor sees the mismatch): every verdict is dominated by a dimension-equivalence guard that leaves the relation undecided
+    # constructor sees the mismatch): every verdict is dominated by a dimension-equivalence guard that raises
     guards = []
     for t in [n for n in f.cfg.stmt_nodes() if n.kind == "test" and isinstance(n.ast, ast.If)]:
         calls = {c.func.attr if isinstance(c.func, ast.Attribute) else (dotted(c.func) or "") for c in ast.walk(t.ast.test) if isinstance(c, ast.Call)}
         body = t.ast.body
-        if "equivalent_dims" in calls and len(body) == 1 and isinstance(body[0], ast.Return) and isinstance(body[0].value, ast.Constant) and body[0].value.value is None:
+        if "equivalent_dims" in calls and len(body) == 1 and isinstance(body[0], ast.Raise):
             sl = f.slice(t, t.ast.test)
             if {"lhs", "rhs"} <= sl.params and "dimension" in sl.attr_names:
                 guards.append(t)
+        elif "equivalent_dims" in calls and len(body) == 1 and isinstance(body[0], ast.Return) and isinstance(body[0].value, ast.Constant) and body[0].value.value is None:
+            run.ob("P7", "_eval_is_ge:guard-refuses")
+            run.violate("P7", f"{QMOD}:_eval_is_ge:guard-returns-none", f.mod, body[0],
+                        "for quantities of inequivalent dimensions _eval_is_ge returns None: to SymPy that only means 'no opinion', it then decides the relation from the "
+                        "signs of the operands - Max(1 m, -3 s) evaluates to 1 m before the constructor can see the mismatch. The guard has to raise")
+            guards.append(t)
     for r in f.cfg.returns():
         v = r.ast.value
         if isinstance(v, ast.Constant) and v.value is None:
